@@ -205,6 +205,6 @@ ASSUME ToDecDigits(FromInt(1002003)) = <<1, 0, 0, 2, 0, 0, 3>>
 ASSUME ToDecDigits(<<>>) = <<0>> /\ FromDecDigits(<<0, 0, 0>>) = <<>>
 ASSUME \A k \in 0..9 : ToInt(Pow10(k)) = 10 ^ k
 ASSUME \A k \in 0..30 : ToInt(Pow2(k)) = 2 ^ k
-ASSUME Pow2(64) = <<1616, 955, 737, 4407, 1844>>
+ASSUME Pow2(64) = <<1616, 955, 737, 6744, 1844>>
 ASSUME MulPow10(FromInt(123), 6) = FromInt(123000000)
 =============================================================================
